@@ -23,6 +23,7 @@ inline Json genSchedule( Rng& rng, uint64_t points_est)
       s[ "policy"] = "random";
       s[ "p"] = ps[ rng.below( sizeof( ps) / sizeof( ps[ 0]))];
       s[ "child_first_pct"] = static_cast< long long>( rng.below( 3) * 50);
+      s[ "sync_pct"] = static_cast< long long>( rng.below( 3) * 25);
       break;
    }
    case 4: case 5: case 6: case 7:
@@ -58,6 +59,7 @@ inline void scheduleFromJson( const Json& s, ScheduleHolder& h, uint64_t step_ca
       h.cfg.p = static_cast< unsigned>( s.geti( "p", 64));
       if (h.cfg.p == 0) h.cfg.p = 1;
       h.cfg.child_first_pct = static_cast< unsigned>( s.geti( "child_first_pct", 50));
+      h.cfg.sync_pct = static_cast< unsigned>( s.geti( "sync_pct", 0));
    } else if (pol == "pct")
    {
       h.cfg.policy = polPct;
